@@ -274,3 +274,48 @@ def c18_r4(ctx):
             else:
                 ctx.ok()
     ctx.need(n, "the function handing out blobs from the file-state table")
+
+
+@rule("C18.R5", floor=1)
+def c18_r5(ctx):
+    """Different modification times give different timestamps: in the function that turns a
+    SystemTime into the number the table stores, the whole seconds are scaled by exactly as many
+    units as the sub-second part counts in (`as_secs() * 1_000_000 + subsec_micros()`): with a
+    smaller factor two different times share a number and the shortcut takes one file for
+    another."""
+    P = ctx.P
+    units = {"subsec_micros": 1_000_000, "subsec_millis": 1_000, "subsec_nanos": 1_000_000_000}
+    n = 0
+    for f in P.fns.values():
+        if f.body.get("in_test") or f.kind == "promoted" or f.body.get("derived"):
+            continue
+        secs = [c for c in f.calls if c.path == "std::time::Duration::as_secs"]
+        subs = [c for c in f.calls if c.path.startswith("std::time::Duration::subsec_")]
+        if not secs or not subs or "u64" not in f.body.get("output", {}).get("s", ""):
+            continue
+        n += 1
+        ctx.saw(f)
+        ctx.inst("timestamp computed in %s" % f.id, secs[0].where)
+        want = {units.get(c.name) for c in subs}
+        if len(want) != 1 or None in want:
+            raise AnalysisError("idiom not recognised: %s mixes sub-second units" % f.id)
+        want = want.pop()
+        so = f._call_origins(secs[0], (), frozenset())
+        facs = []
+        for b in f.blocks:
+            if b["cleanup"]:
+                continue
+            for st in b["stmts"]:
+                if st["k"] == "assign" and st["rv"]["k"] in ("binop", "checked_binop") and st["rv"]["op"] in ("Mul", "MulWithOverflow"):
+                    a, b2 = st["rv"]["a"], st["rv"]["b"]
+                    for x, y in ((a, b2), (b2, a)):
+                        if x["k"] == "const" and x.get("bits") is not None and y["k"] in ("copy", "move") and f.origins_of_operand(y) == so:
+                            facs.append(int(x["bits"]))
+        if not facs:
+            raise AnalysisError("idiom not recognised: %s does not scale as_secs() by a constant" % f.id)
+        for k in facs:
+            if k != want:
+                ctx.viol((f.id, "timestamp-scale"), "whole seconds are scaled by %d while the sub-second part counts in 1/%d s: two different modification times can get the same number, so a file rewritten at such a moment is taken for the recorded one (and filed in the cache under the recorded hash)" % (k, want), secs[0].where)
+            else:
+                ctx.ok()
+    ctx.need(n, "the SystemTime -> timestamp conversion")
